@@ -51,6 +51,7 @@ func runC20(p *eng.Prog, r *eng.Report, tier string) {
 	}
 	g := f.Graph()
 	c20AccumulatorsPerIteration(c, "C20.8", f)
+	c20SortsCopies(c, "C20.9")
 	hname := "p1"
 	// ---- C20.4b the encoder's output buffer never overlaps the digest ----------
 	nenc := 0
@@ -186,7 +187,7 @@ func runC20(p *eng.Prog, r *eng.Report, tier string) {
 	// hash must be part of the comparator's key, unless the property's
 	// quantifier excludes elements that differ only in that part.
 	keyExempt := map[string]string{
-		"recv.Identity|.Name": "the property quantifies over identities with distinct category/type/language: two identities never tie on the key",
+		"[]disco/info.Identity|.Name": "the property quantifies over identities with distinct category/type/language: two identities never tie on the key",
 	}
 	for _, sc := range f.Calls("sort.Slice") {
 		lit, ok := sc.Args[1].(*ast.FuncLit)
@@ -195,6 +196,14 @@ func runC20(p *eng.Prog, r *eng.Report, tier string) {
 		}
 		lf := c.p.FnOfLit(lit)
 		xs := f.Norm(sc.Args[0], nil)
+		// the collection is named by its type in the obligation's key (the
+		// spelling of the expression - a field of the receiver or a sorted copy -
+		// is not part of the rule)
+		role := eng.TypeStr(f.Info().TypeOf(sc.Args[0]))
+		var collObj types.Object
+		if idn, ok := ast.Unparen(sc.Args[0]).(*ast.Ident); ok {
+			collObj = f.Info().ObjectOf(idn)
+		}
 		// accessors the comparator applies to an element X[i]
 		accessorsOf := func(fn *eng.Fn, root ast.Node, isElem func(e ast.Expr) bool) map[string]bool {
 			out := map[string]bool{}
@@ -214,6 +223,9 @@ func runC20(p *eng.Prog, r *eng.Report, tier string) {
 		isElemInLess := func(e ast.Expr) bool {
 			e = ast.Unparen(e)
 			if ix, ok := e.(*ast.IndexExpr); ok {
+				if bi, isId := ast.Unparen(ix.X).(*ast.Ident); isId && collObj != nil {
+					return lf.Info().ObjectOf(bi) == collObj
+				}
 				return lf.Norm(ix.X, nil) == strings.Replace(xs, "recv.", "outer.recv.", 1) || strings.HasSuffix(lf.Norm(ix.X, nil), strings.TrimPrefix(xs, "recv"))
 			}
 			if idn, ok := e.(*ast.Ident); ok {
@@ -237,7 +249,14 @@ func runC20(p *eng.Prog, r *eng.Report, tier string) {
 		// the loop that hashes the same collection
 		f.WalkBody(func(nd ast.Node) bool {
 			rs, ok := nd.(*ast.RangeStmt)
-			if !ok || f.Norm(rs.X, nil) != xs || len(writesHash(f, rs.Body, hname)) == 0 {
+			if !ok {
+				return true
+			}
+			sameColl := f.Norm(rs.X, nil) == xs
+			if ri, isId := ast.Unparen(rs.X).(*ast.Ident); isId && collObj != nil {
+				sameColl = f.Info().ObjectOf(ri) == collObj
+			}
+			if !ok || !sameColl || len(writesHash(f, rs.Body, hname)) == 0 {
 				return true
 			}
 			vid, _ := rs.Value.(*ast.Ident)
@@ -255,13 +274,13 @@ func runC20(p *eng.Prog, r *eng.Report, tier string) {
 				if keys[a] {
 					continue
 				}
-				if _, ex := keyExempt[xs+"|"+a]; ex {
+				if _, ex := keyExempt[role+"|"+a]; ex {
 					continue
 				}
 				missing = append(missing, a)
 			}
 			sort.Strings(missing)
-			c.r.Check("C20.2", f, "sort key of "+xs+" covers what is hashed", "T: every accessor of an element used in the hashing loop is also read by the comparator (ties are left in input order), up to the reasoned exemptions", sc.Pos(), len(missing) == 0, "the loop hashes "+strings.Join(missing, ", ")+" of each element but the comparator does not compare it: two elements that tie on the key are hashed in input order")
+			c.r.Check("C20.2", f, "sort key of "+role+" covers what is hashed", "T: every accessor of an element used in the hashing loop is also read by the comparator (ties are left in input order), up to the reasoned exemptions", sc.Pos(), len(missing) == 0, "the loop hashes "+strings.Join(missing, ", ")+" of each element but the comparator does not compare it: two elements that tie on the key are hashed in input order")
 			return true
 		})
 	}
@@ -691,4 +710,31 @@ func c20AccumulatorsPerIteration(c *cx, id string, f *eng.Fn) {
 		return true
 	})
 	c.r.Note("%s: %d lists declared outside and filled inside a loop of AppendHash (expected 0 on the unchanged tree)", id, n)
+}
+
+// c20SortsCopies (C20.9/C19.29, E-alias): hashing does not change the value.
+// Every slice that AppendHash sorts is a copy made in this call: Info is passed
+// by value but its slices, and the value lists form.Raw returns, are the
+// caller's storage. Sorting them in place reorders the lines of a text-multi
+// field (the XML written after Hash differs from the XML written before) and
+// races with a concurrent Hash of the same Info.
+func c20SortsCopies(c *cx, id string) {
+	f := c.fn(id, "disco", "Info.AppendHash")
+	if f == nil {
+		return
+	}
+	g := f.Graph()
+	n := 0
+	for _, cl := range f.AllCalls() {
+		switch f.CalleeID(cl) {
+		case "sort.Slice", "sort.SliceStable", "sort.Strings", "sort.Sort", "sort.Stable":
+		default:
+			continue
+		}
+		n++
+		pt, _ := g.Where(cl)
+		okf, why := freshSlice(f, cl.Args[0], pt, map[*eng.Def]bool{})
+		c.r.Check(id, f, "sorted slice "+eng.TypeStr(f.Info().TypeOf(cl.Args[0])), "E-alias: a slice that AppendHash sorts was allocated in this call (a copy), never the receiver's or a form's own storage", cl.Pos(), okf, why+": the caller's data is reordered by hashing")
+	}
+	c.r.Floor(id, "sort calls in AppendHash", n, 4)
 }
